@@ -324,6 +324,40 @@ theorem locateClosest_nearest (l : List Rat) (t : Rat) (hne : l ≠ []) (hs : is
 
 example : isSorted [1, 2, 2, 5] = true ∧ locateClosest [1, 2, 2, 5] (7/2) = .ok 3 := by decide +kernel
 
+/-- The interior decision, exactly: with neighbours `a = l[idx-1] ≤ t < l[idx] = b` the lower index is
+    returned iff `t` is strictly below the exact midpoint `(a+b)/2`; a tie goes to the upper index.
+    (Over ℚ the comparison of the two distances and the midpoint test coincide; in `double` they
+    need not: `a + b` can overflow or round — the regime the near-`DBL_MAX` and few-ulps input
+    families probe against this exact model.) -/
+theorem locateClosest_interior (l : List Rat) (t : Rat) (hs : isSorted l = true)
+    (h0 : 0 < upperBound l t) (h1 : upperBound l t < l.length) :
+    locateClosest l t =
+      .ok (if t < (l[upperBound l t - 1]'(by omega) + l[upperBound l t]) / 2
+           then upperBound l t - 1 else upperBound l t) := by
+  have hb : l[upperBound l t - 1]'(by omega) ≤ t := upperBound_below l t _ (by omega) (by omega)
+  have ha : t < l[upperBound l t] := upperBound_above l t h1
+  unfold locateClosest
+  simp only [hs, Bool.not_true, Bool.false_eq_true, if_false]
+  rw [if_neg (by omega), if_neg (by omega)]
+  have e1 : l.getD (upperBound l t - 1) 0 = l[upperBound l t - 1]'(by omega) := by
+    rw [List.getD_eq_getElem?_getD, List.getElem?_eq_getElem (by omega)]; rfl
+  have e2 : l.getD (upperBound l t) 0 = l[upperBound l t] := by
+    rw [List.getD_eq_getElem?_getD, List.getElem?_eq_getElem (by omega)]; rfl
+  simp only [e1, e2, rabs_eq_abs]
+  rw [abs_of_nonpos (by linarith), abs_of_nonneg (by linarith)]
+  by_cases hm : t < (l[upperBound l t - 1]'(by omega) + l[upperBound l t]) / 2
+  · rw [if_pos hm, if_pos (by linarith)]
+  · rw [if_neg hm, if_neg (by linarith)]
+
+/-- the two ways of deciding agree in exact arithmetic -/
+theorem closest_midpoint_rule (a b t : Rat) (h1 : a ≤ t) (h2 : t ≤ b) :
+    |a - t| < |b - t| ↔ t < (a + b) / 2 := by
+  rw [abs_of_nonpos (by linarith), abs_of_nonneg (by linarith)]
+  constructor <;> intro h <;> linarith
+
+example : locateClosest [0, 1, 4] 2 = .ok 1 ∧ locateClosest [0, 1, 4] (5/2) = .ok 2 ∧
+    locateClosest [0, 1, 4] 3 = .ok 2 := by decide +kernel
+
 /-! ## 5. List templates -/
 
 section Lists
@@ -492,6 +526,133 @@ theorem findIndices_strictly_increasing (l : List α) (x : α) :
 example : findIndices [5, 7, 5, 5] 5 = [0, 2, 3] := by decide
 
 end Lists
+
+/-! ### 5b. Lists_Equal for element types whose `==` is not Leibniz equality (`double`: ±0, NaN) -/
+
+/-- `Lists_Equal` for any element `==`: lengths equal ∧ pointwise `==`. -/
+theorem listsEqualBy_iff {β : Type} (eq : β → β → Bool) (v1 v2 : List β) :
+    listsEqualBy eq v1 v2 = true ↔
+      v1.length = v2.length ∧
+        ∀ (i : Nat) (h1 : i < v1.length) (h2 : i < v2.length), eq v1[i] v2[i] = true := by
+  unfold listsEqualBy
+  by_cases hl : v1.length = v2.length
+  · rw [if_neg (by simpa using hl)]
+    simp only [List.all_eq_true, List.mem_range]
+    constructor
+    · intro h
+      refine ⟨hl, fun i h1 h2 => ?_⟩
+      have := h i h1
+      rw [List.getElem?_eq_getElem h1, List.getElem?_eq_getElem h2] at this
+      exact this
+    · rintro ⟨_, h⟩ i hi
+      rw [List.getElem?_eq_getElem hi, List.getElem?_eq_getElem (by omega)]
+      exact h i hi (by omega)
+  · rw [if_pos (by simpa using hl)]
+    simp [hl]
+
+/-- with Leibniz equality as `==` it is the earlier model `listsEqual` (int / unsigned lists) -/
+theorem listsEqualBy_decide_eq {α : Type} [DecidableEq α] (v1 v2 : List α) :
+    listsEqualBy (fun a b => decide (a = b)) v1 v2 = listsEqual v1 v2 := by
+  unfold listsEqualBy listsEqual
+  split
+  · rfl
+  · rename_i hl
+    simp only [ne_eq, Decidable.not_not] at hl
+    rw [Bool.eq_iff_iff]
+    simp only [List.all_eq_true, List.mem_range]
+    constructor
+    · intro h i hi
+      have := h i hi
+      rw [List.getElem?_eq_getElem hi, List.getElem?_eq_getElem (by omega)] at this ⊢
+      simpa using this
+    · intro h i hi
+      have := h i hi
+      rw [List.getElem?_eq_getElem hi, List.getElem?_eq_getElem (by omega)] at this ⊢
+      simpa using this
+
+theorem Dbl.eqv_comm (a b : Dbl) : Dbl.eqv a b = Dbl.eqv b a := by
+  cases a <;> cases b <;> simp [Dbl.eqv, eq_comm]
+
+/-- `==` on doubles is equality of the denoted elements except that NaN is unequal to itself -/
+theorem Dbl.eqv_iff (a b : Dbl) : Dbl.eqv a b = true ↔ a = b ∧ a ≠ .nan := by
+  cases a <;> cases b <;> simp [Dbl.eqv]
+
+/-- double lists: equal lengths and pointwise IEEE `==` (so `{-0.0}` equals `{+0.0}`: both are `fin 0`) -/
+theorem listsEqualD_iff (v1 v2 : List Dbl) :
+    listsEqualD v1 v2 = true ↔
+      v1.length = v2.length ∧
+        ∀ (i : Nat) (h1 : i < v1.length) (h2 : i < v2.length), Dbl.eqv v1[i] v2[i] = true :=
+  listsEqualBy_iff _ _ _
+
+/-- … equivalently: the same list, and it contains no NaN -/
+theorem listsEqualD_iff_eq (v1 v2 : List Dbl) :
+    listsEqualD v1 v2 = true ↔ v1 = v2 ∧ Dbl.nan ∉ v1 := by
+  rw [listsEqualD_iff]
+  constructor
+  · rintro ⟨hl, h⟩
+    constructor
+    · apply List.ext_getElem hl
+      intro i h1 h2
+      exact ((Dbl.eqv_iff _ _).mp (h i h1 h2)).1
+    · intro hm
+      obtain ⟨i, hi, e⟩ := List.getElem_of_mem hm
+      have := ((Dbl.eqv_iff _ _).mp (h i hi (by omega))).2
+      exact this e
+  · rintro ⟨rfl, hn⟩
+    refine ⟨rfl, ?_⟩
+    intro i h1 _
+    rw [Dbl.eqv_iff]
+    exact ⟨rfl, fun e => hn (e ▸ List.getElem_mem h1)⟩
+
+/-- a list is `Lists_Equal` to its copy iff it contains no NaN -/
+theorem listsEqualD_self (v : List Dbl) : listsEqualD v v = true ↔ Dbl.nan ∉ v := by
+  rw [listsEqualD_iff_eq]; simp
+
+theorem listsEqualD_comm (v1 v2 : List Dbl) : listsEqualD v1 v2 = listsEqualD v2 v1 := by
+  rw [Bool.eq_iff_iff, listsEqualD_iff_eq, listsEqualD_iff_eq]
+  constructor
+  · rintro ⟨rfl, h⟩; exact ⟨rfl, h⟩
+  · rintro ⟨rfl, h⟩; exact ⟨rfl, h⟩
+
+/-- nested overload: same number of rows, rows of equal lengths, pointwise `==` -/
+theorem listsEqualDD_iff (v1 v2 : List (List Dbl)) :
+    listsEqualDD v1 v2 = true ↔
+      v1.length = v2.length ∧
+        ∀ (i : Nat) (h1 : i < v1.length) (h2 : i < v2.length),
+          v1[i].length = v2[i].length ∧
+            ∀ (j : Nat) (g1 : j < v1[i].length) (g2 : j < v2[i].length),
+              Dbl.eqv v1[i][j] v2[i][j] = true := by
+  unfold listsEqualDD
+  rw [listsEqualBy_iff]
+  simp only [listsEqualD_iff]
+
+/-- … equivalently: the same nested list without any NaN -/
+theorem listsEqualDD_iff_eq (v1 v2 : List (List Dbl)) :
+    listsEqualDD v1 v2 = true ↔ v1 = v2 ∧ ∀ row ∈ v1, Dbl.nan ∉ row := by
+  unfold listsEqualDD
+  rw [listsEqualBy_iff]
+  constructor
+  · rintro ⟨hl, h⟩
+    constructor
+    · apply List.ext_getElem hl
+      intro i h1 h2
+      exact ((listsEqualD_iff_eq _ _).mp (h i h1 h2)).1
+    · intro row hm
+      obtain ⟨i, hi, e⟩ := List.getElem_of_mem hm
+      have := ((listsEqualD_iff_eq _ _).mp (h i hi (by omega))).2
+      rw [e] at this; exact this
+  · rintro ⟨rfl, hn⟩
+    refine ⟨rfl, ?_⟩
+    intro i h1 _
+    rw [listsEqualD_iff_eq]
+    exact ⟨rfl, hn _ (List.getElem_mem h1)⟩
+
+-- signed zeros are one element, a NaN breaks reflexivity, a shorter list is never equal
+example : listsEqualD [.fin (-0), .fin 1] [.fin 0, .fin 1] = true := by decide
+example : listsEqualD [.fin 1, .nan] [.fin 1, .nan] = false := by decide
+example : listsEqualD [.fin 1] [.fin 1, .fin 2] = false := by decide
+example : listsEqualDD [[.fin 1, .fin 2], [.pinf]] [[.fin 1], [.fin 2, .pinf]] = false := by decide
+example : listsEqualDD [[.fin 0], [.ninf]] [[.fin (-0)], [.ninf]] = true := by decide
 
 /-! ## 6. Statistics laws -/
 
